@@ -616,6 +616,7 @@ func c04R5(p *engine.Prog, r *engine.Report, sm *stateModel) {
 	// ---------------- R9: stake parts stay nested
 	stakePartsRule(p, r, "C04-R9")
 	c04R10(p, r)
+	c04R11(p, r)
 	r.Floor("C04-R9", 3, "invitee reward (locked, replenished) + ReplenishStakeTx")
 	// ---------------- R7: buffered balances are read through the buffer
 	c04R7(p, r)
@@ -786,4 +787,208 @@ func c04R10(p *engine.Prog, r *engine.Report) {
 		r.Und("C04-R10", "addFlipReward|payout calls", p.Pos(f.Pos()), "no payout call with a weight slice and a share found")
 	}
 	r.Floor("C04-R10", 2, "basic and extra payouts")
+}
+
+// fieldCondTokens: for the branch conditions that control block b, the (field, operator, polarity)
+// of comparisons on fields of the named struct type, sorted — a shape that survives renaming of
+// locals and the difference between a callback parameter and a cached copy.
+func fieldCondTokens(b *ssa.BasicBlock, typ string) []string {
+	var out []string
+	for _, d := range b.Parent().Blocks {
+		if len(d.Instrs) == 0 || d == b {
+			continue
+		}
+		iff, ok := d.Instrs[len(d.Instrs)-1].(*ssa.If)
+		if !ok {
+			continue
+		}
+		branch := -1
+		for i, s := range d.Succs {
+			if len(s.Preds) == 1 && s.Dominates(b) {
+				branch = i
+			}
+		}
+		if branch < 0 {
+			continue
+		}
+		cond, neg := stripNot(iff.Cond)
+		pol := (branch == 0) != neg
+		var flds []string
+		for v := range engine.BackSlice(cond, engine.SliceOpts{ThroughLoads: true, ThroughFields: true, ThroughCalls: true, MaxNodes: 60}) {
+			if o, f, okF := engine.FieldOf(v); okF && o == typ {
+				flds = append(flds, f)
+			}
+			if fv, isF := v.(*ssa.Field); isF {
+				if n := engine.NamedOf(fv.X.Type()); n != nil && n.Obj().Name() == typ {
+					if st, okS := n.Underlying().(*types.Struct); okS {
+						flds = append(flds, st.Field(fv.Field).Name())
+					}
+				}
+			}
+		}
+		if len(flds) == 0 {
+			continue
+		}
+		sort.Strings(flds)
+		op := "?"
+		switch x := cond.(type) {
+		case *ssa.BinOp:
+			op = x.Op.String()
+		case *ssa.Call:
+			if o := engine.CalleeObj(&x.Call); o != nil {
+				op = o.Name() + "()"
+			}
+		}
+		t := strings.Join(dedup(flds), "+") + " " + op
+		if !pol {
+			t = "!(" + t + ")"
+		}
+		out = append(out, t)
+	}
+	sort.Strings(out)
+	return dedup(out)
+}
+
+// c04R11: a fund divided by a count is paid to exactly those that were counted: in
+// addSuccessfulValidationReward the conditions on the identity under which the candidate counter is
+// incremented equal the conditions under which the candidate share is paid.
+func c04R11(p *engine.Prog, r *engine.Report) {
+	f := mustFunc(p, r, "blockchain", "addSuccessfulValidationReward")
+	if f == nil {
+		return
+	}
+	r.Fn(engine.FuncName(f))
+	all := append([]*ssa.Function{f}, f.AnonFuncs...)
+	// the share and its divisor
+	var share *ssa.Call
+	for _, c := range engine.Calls(f) {
+		cc, ok := c.(*ssa.Call)
+		if !ok {
+			continue
+		}
+		if o := engine.CalleeObj(&cc.Call); o != nil && o.Name() == "Div" && strings.HasSuffix(o.Pkg().Path(), "shopspring/decimal") {
+			// divisor built from a uint64 counter
+			for v := range engine.BackSlice(engine.CallArgs(cc)[1], engine.DefaultSlice) {
+				if bt, isB := v.Type().Underlying().(*types.Basic); isB && bt.Kind() == types.Uint64 {
+					share = cc
+				}
+			}
+		}
+	}
+	if share == nil {
+		r.Und("C04-R11", "addSuccessfulValidationReward|candidate share", p.Pos(f.Pos()), "no share divided by a counter found")
+		return
+	}
+	// counting sites: stores / adds to the counter cell (captured by the scan closure)
+	var countConds, payConds [][]string
+	counter := map[ssa.Value]bool{}
+	for v := range engine.BackSlice(engine.CallArgs(share)[1], engine.DefaultSlice) {
+		if bt, isB := v.Type().Underlying().(*types.Basic); isB && bt.Kind() == types.Uint64 {
+			counter[v] = true
+			if u, isU := v.(*ssa.UnOp); isU {
+				counter[u.X] = true
+			}
+		}
+	}
+	for _, g := range all {
+		for _, b := range g.Blocks {
+			for _, ins := range b.Instrs {
+				st, ok := ins.(*ssa.Store)
+				if !ok {
+					continue
+				}
+				bo, isB := engine.Unwrap(st.Val).(*ssa.BinOp)
+				if !isB || bo.Op != token.ADD {
+					continue
+				}
+				// the cell of the counter: an Alloc in f or its FreeVar image in a closure
+				isCounter := counter[st.Addr]
+				if fv, isFV := st.Addr.(*ssa.FreeVar); isFV {
+					for i, x := range g.FreeVars {
+						if x == fv && g.Parent() == f {
+							// binding i of the MakeClosure
+							for _, c2 := range engine.Calls(f) {
+								_ = c2
+							}
+							for _, bb := range f.Blocks {
+								for _, i2 := range bb.Instrs {
+									if mc, isMC := i2.(*ssa.MakeClosure); isMC && mc.Fn == ssa.Value(g) && i < len(mc.Bindings) && counter[mc.Bindings[i]] {
+										isCounter = true
+									}
+								}
+							}
+						}
+					}
+				}
+				if isCounter {
+					countConds = append(countConds, fieldCondTokens(b, "Identity"))
+				}
+			}
+		}
+	}
+	// paying sites: calls that receive a value derived from the share
+	for _, g := range all {
+		for _, c := range engine.Calls(g) {
+			cc := c.Common()
+			if cc.IsInvoke() {
+				continue
+			}
+			if sc := cc.StaticCallee(); sc != nil && sc.Parent() == nil && !strings.HasPrefix(sc.Name(), "add") {
+				continue
+			}
+			uses := false
+			for _, a := range cc.Args {
+				if bi, isBig := a.Type().(*types.Pointer); isBig && bi.Elem().String() == "math/big.Int" {
+					if engine.BackSlice(a, engine.DefaultSlice)[share] {
+						uses = true
+					}
+				}
+			}
+			if uses {
+				payConds = append(payConds, fieldCondTokens(c.Block(), "Identity"))
+			}
+		}
+	}
+	// the paying loop runs over the list the scan collected: conditions that already control the
+	// collection (append to a captured slice of records) define the common population, not the count
+	population := map[string]bool{}
+	for _, g := range f.AnonFuncs {
+		for _, b := range g.Blocks {
+			for _, ins := range b.Instrs {
+				st, ok := ins.(*ssa.Store)
+				if !ok {
+					continue
+				}
+				if _, isFV := st.Addr.(*ssa.FreeVar); !isFV {
+					continue
+				}
+				if c, isC := engine.Unwrap(st.Val).(*ssa.Call); isC {
+					if bi, isB := c.Call.Value.(*ssa.Builtin); isB && bi.Name() == "append" {
+						for _, t := range fieldCondTokens(b, "Identity") {
+							population[t] = true
+						}
+					}
+				}
+			}
+		}
+	}
+	for i, c := range countConds {
+		var keep []string
+		for _, t := range c {
+			if !population[t] {
+				keep = append(keep, t)
+			}
+		}
+		countConds[i] = keep
+	}
+	render := func(x [][]string) string {
+		var ss []string
+		for _, c := range x {
+			ss = append(ss, "["+strings.Join(c, " && ")+"]")
+		}
+		sort.Strings(ss)
+		return strings.Join(dedup(ss), ",")
+	}
+	a, b := render(countConds), render(payConds)
+	r.Check(len(countConds) > 0 && len(payConds) > 0 && a == b, "C04-R11", "addSuccessfulValidationReward|the candidate fund is paid to exactly those that were counted", p.InstrPos(share), "counted under "+a+", paid under "+b, "the divisor counts identities under "+a+" but the share is paid under "+b+": when the two sets differ the shares paid do not add up to the fund — a validation-finishing block mints more (or less) than the epoch's pool")
 }
